@@ -88,5 +88,5 @@ pub fn uci_move_text(len: usize) {
             assert!(rest == if len == 5 && pr == 0 { 1 } else { 0 });
         }
     }
-    kani::cover!(got.is_some() && pr == 2);
+    kani::cover!(got.is_some() && (len == 4 || pr == 2));
 }
